@@ -258,6 +258,7 @@ type pendingTask struct {
 }
 
 type cluster struct {
+	lastTN tnConn
 	net     *simNet
 	base    string
 	opt     Options
